@@ -195,7 +195,8 @@ func (ec *evalCtx) ident(name string) (TV, error) {
 		// iterations completed when the loop was left through its head
 		key := fmt.Sprintf("U:loop%s@%d", strings.TrimPrefix(name, "$iter"), ec.fr.frameID)
 		if !ec.st.has(key) {
-			return TV{}, fmt.Errorf("%s: loop is not unrolled or has not been reached", name)
+			// the loop has not been reached on this path
+			return TV{T: c.sc.idxLit(-1), Ty: types.Typ[types.Int]}, nil
 		}
 		return TV{T: c.get(ec.st, key), Ty: types.Typ[types.Int]}, nil
 	}
@@ -252,6 +253,9 @@ func (ec *evalCtx) ident(name string) (TV, error) {
 	if obj := types.Universe.Lookup(name); obj != nil {
 		if k, ok := obj.(*types.Const); ok {
 			return ec.constObj(k)
+		}
+		if tn, ok := obj.(*types.TypeName); ok {
+			return TV{T: Term{fmt.Sprintf("%d", c.typeTag(tn.Type())), SInt}, Tag: true, Ty: tn.Type()}, nil
 		}
 	}
 	return TV{}, fmt.Errorf("unknown identifier %q", name)
@@ -352,6 +356,11 @@ func (ec *evalCtx) object(obj types.Object) (TV, error) {
 		}
 	case *types.TypeName:
 		return TV{T: Term{fmt.Sprintf("%d", c.typeTag(o.Type())), SInt}, Tag: true, Ty: o.Type()}, nil
+	case *types.Func:
+		// a package-level function used as a value (compared with a function-typed variable)
+		if fn := c.v.prog.FuncValue(o); fn != nil {
+			return TV{T: c.fnConst(fn), Ty: o.Type()}, nil
+		}
 	}
 	return TV{}, fmt.Errorf("object %s cannot be used in a contract expression", obj)
 }
